@@ -387,13 +387,15 @@ NextPhase(sz) ==
   ELSE IF phase = "drain" /\ sz = 0 THEN "fill"
   ELSE phase
 
-(* ramp filter: mostly insert absent keys while filling, mostly delete present ones while draining *)
-RampAllowsInsert(k) == ~Ramp \/ (phase = "fill" /\ ~Has(m, k)) \/ (phase = "drain" /\ size % 5 = 0 /\ ~Has(m, k))
-RampAllowsDelete(k) == ~Ramp \/ (phase = "drain" /\ Has(m, k)) \/ (phase = "fill" /\ size % 7 = 0 /\ Has(m, k))
+(* ramp (simulation only): mostly insert absent keys while filling, mostly delete *)
+(* present ones while draining; ONE uniformly random candidate key per step, so  *)
+(* a step costs two evaluations of the operation instead of 2 * N                *)
+EligIns == {k \in Insertable : ~Has(m, k) /\ (phase = "fill" \/ size % 5 = 0)}
+EligDel == {k \in 1..N : Has(m, k) /\ (phase = "drain" \/ size % 7 = 0)}
+
 
 Insert(k) ==
   /\ Bounded
-  /\ RampAllowsInsert(k)
   /\ LET r == InsTop(tree, k)
      IN  /\ tree' = r.t
          /\ size' = size + (IF r.added THEN 1 ELSE 0)
@@ -405,7 +407,6 @@ Insert(k) ==
 
 Delete(k) ==
   /\ Bounded
-  /\ RampAllowsDelete(k)
   /\ LET r == DelTop(tree, k)
      IN  /\ tree' = r.t
          /\ size' = size - (IF r.res THEN 1 ELSE 0)
@@ -415,7 +416,13 @@ Delete(k) ==
   /\ h' = Append(h, <<"D", k>>)
   /\ Emit(<<"D", k>>)
 
-Next == (\E k \in Insertable : Insert(k)) \/ (\E k \in 1..N : Delete(k))
+FullNext == (\E k \in Insertable : Insert(k)) \/ (\E k \in 1..N : Delete(k))
+
+RampNext ==
+  \/ (EligIns # {} /\ \E k \in {RandomElement(EligIns)} : Insert(k))
+  \/ (EligDel # {} /\ \E k \in {RandomElement(EligDel)} : Delete(k))
+
+Next == IF Ramp THEN RampNext ELSE FullNext
 
 Spec == Init /\ [][Next]_vars
 
